@@ -1,5 +1,6 @@
 // Interface between the generic driver (pbt_main.cpp / fuzz_main.cpp) and an engine.
 #pragma once
+#include <cstdlib>
 #include "tape.hpp"
 #include <map>
 #include <stdexcept>
@@ -69,5 +70,8 @@ struct Engine {
 };
 
 extern const Engine ENGINE;
+
+/// e_seg, C03: the "beyond 2^32 points" class is selected by the driver (environment, thorough tier) or by a replay file of such a case.
+inline bool beyond32_mode(const RunCtx &ctx) { return ctx.prop == "C03" && (getenv("VF_C03_BEYOND32") != nullptr || ctx.x("xbeyond32") != nullptr); }
 
 } // namespace vf
